@@ -349,16 +349,24 @@ def parse_sanitizer(err):
         if m:
             kind = m.group(1)
             j = i + 1
-            stack = []
-            while j < len(lines) and not lines[j].strip().startswith("#"):
+            block = [ln]
+            while j < len(lines) and not lines[j].startswith("SUMMARY: AddressSanitizer") and j - i < 200:
+                block.append(lines[j])
                 j += 1
-                if j - i > 6:
-                    break
-            while j < len(lines) and lines[j].strip().startswith("#"):
-                stack.append(lines[j])
-                j += 1
-            reps.append({"tool": "asan", "kind": kind, "frame": engine_frame("\n".join(stack)), "where": "",
-                         "text": ln.strip()[:300] + " | " + " | ".join(s.strip() for s in stack[:6])})
+            text = "\n".join(block)
+            stack = [b for b in block if b.strip().startswith("#")]
+            frame = engine_frame("\n".join(stack))
+            # for stack / global overflows name the owner of the buffer, not the function that happened to write
+            mo = re.search(r"in frame\s*\n\s*(#0 .*)", text)
+            if mo:
+                fr = engine_frame(mo.group(1))
+                if fr != "?":
+                    frame = "frame:" + fr
+            mg = re.search(r"global variable '([^']+)'", text)
+            if mg:
+                frame = "global:" + mg.group(1)
+            reps.append({"tool": "asan", "kind": kind, "frame": frame, "where": "",
+                         "text": ln.strip()[:300] + " | " + " | ".join(x.strip() for x in stack[:6])})
             i = j
             continue
         m = re.search(r"VERIF-BOUND site=(\S+) index=(-?\d+) size=(-?\d+)", ln)
@@ -416,7 +424,10 @@ class Check:
     def add_counters(self, d):
         for k, v in (d or {}).items():
             if isinstance(v, (int, float)):
-                self.counters[k] = self.counters.get(k, 0) + v
+                if k.startswith("max-"):
+                    self.counters[k] = max(self.counters.get(k, 0), v)
+                else:
+                    self.counters[k] = self.counters.get(k, 0) + v
 
     def add_violation(self, key, example, count=1):
         v = self.viol.setdefault(key, {"count": 0, "example": example})
